@@ -80,7 +80,16 @@ def cases(draw, tier):
                     {'op': 'borrow', 'r': 'R', 'amounts': {'a': draw(st.integers(1, 3))}, 'body': [{'op': 'mark', 'v': i}, {'op': 'instant'}]}]})
         setter = {'name': 's', 'steps': [{'op': 'borrow', 'r': 'R', 'amounts': {'a': 3}, 'body': [
             {'op': 'sleep', 'd': 1}, {'op': 'tset', 'i': 0, 'v': draw(st.integers(1, 3))}]}, {'op': 'tset', 'i': 0, 'v': 3}]}
-        prog = {'start': 0, 'objs': {'tracked': [0, 0], 'resources': [{'kind': 'cap', 'name': 'R', 'levels': {'a': 3}}]},
+        levels = {'a': 3}
+        kind = 'cap'
+        if draw(st.booleans()):
+            # several named kinds; somebody walks over the levels (iteration order and repr are observable)
+            for nm in draw(st.lists(st.sampled_from(['cores', 'memory', 'gpus', 'disk', 'licenses', 'b', 'z9']), min_size=1,
+                                    max_size=5, unique=True)):
+                levels[nm] = draw(st.integers(1, 4))
+            kind = draw(st.sampled_from(['cap', 'res']))
+            acts.append({'name': 'lv', 'steps': [{'op': 'levels_iter', 'r': 'R'}, {'op': 'sleep', 'd': 1}, {'op': 'levels_iter', 'r': 'R'}]})
+        prog = {'start': 0, 'objs': {'tracked': [0, 0], 'resources': [{'kind': kind, 'name': 'R', 'levels': levels}]},
                 'roots': [setter] + acts}
         return {'prog': prog, 'junk': draw(st.integers(0, 10000))}
     if k in (1, 2):
